@@ -80,9 +80,9 @@ def lock_spec(prop, tier):
                 + lr(fam("conv2"), 2, dev=1, **T))
     if prop == "C11":
         if q:
-            return lr(fam("p2x1", "conv2", locks=MCS), -1) + lr(fam("p2x2", "p3x1", "conv3", locks=MCS), 2)
+            return lr(fam("p2x1", "conv2", locks=MCS), -1) + lr(fam("p2x2", "p3x1", "conv3", "fifo4", locks=MCS), 2)
         return (lr(fam("p2x1", "conv2", "p2x2", "p3x1", locks=MCS), -1, **T)
-                + lr(fam("conv3", "p3x2", locks=MCS), 3, **T)
+                + lr(fam("conv3", "p3x2", "fifo4", locks=MCS), 3, **T)
                 + lr(fam("p4x1", locks=MCS), 2, **T))
     if prop == "C12":
         if q:
@@ -131,8 +131,9 @@ def idm_spec(prop, tier):
                 + idm_runs((2, 3), ("basic", "over", "reuse"), 3, 600, 300) + idm_runs((4,), ("basic", "over1"), 2, 600, 300))
     if prop == "C14":
         if q:
-            return idm_runs((1, 2), ("over", "reuse"), 3) + idm_runs((3,), ("over1", "reuse1"), 2)
-        return idm_runs((1, 2, 3), ("over", "reuse", "big"), 3, 600, 300) + idm_runs((4,), ("over1", "reuse1"), 2, 600, 300)
+            return idm_runs((1, 2), ("over", "reuse", "salted"), 3) + idm_runs((3,), ("over1", "reuse1", "salted"), 2)
+        return (idm_runs((1, 2, 3), ("over", "reuse", "big", "salted"), 3, 600, 300)
+                + idm_runs((4,), ("over1", "reuse1", "salted"), 2, 600, 300))
     if prop == "C15":
         if q:
             return (idm_runs((1, 2), ("basic", "over", "reuse"), 3) + idm_runs((3,), ("basic", "over1", "reuse1"), 2)
